@@ -27,6 +27,7 @@ const (
 	aBox                    // boxed scalar behind a pointer
 	aObj                    // struct object by ref (fields in component heaps)
 	aGlobal                 // package-level variable
+	aArr                    // whole heap-allocated array (backing store in the element heap)
 )
 
 type pathStep struct {
@@ -128,6 +129,11 @@ type Exec struct {
 	canaries  bool
 	calls     map[string]int
 	locked    map[string]bool
+	collectFacts bool
+	pureFacts    []Term
+	qFacts       [][]Term
+	psums     map[string]string
+	psumUnfolded map[string]bool
 }
 
 func (x *Exec) fresh(prefix string) string {
@@ -212,6 +218,10 @@ func (x *Exec) subRef(structT types.Type, i int, ref Term) Term {
 // type invariants (assumed for inputs, loads, havocs)
 
 func (x *Exec) typeInv(t types.Type, v Term, st *State) Term {
+	return x.typeInvTop(t, v, st.allocTop)
+}
+
+func (x *Exec) typeInvTop(t types.Type, v Term, top Term) Term {
 	if ii, ok := x.X.intInfoOf(t); ok {
 		if x.X.bvMode {
 			return "true"
@@ -224,13 +234,13 @@ func (x *Exec) typeInv(t types.Type, v Term, st *State) Term {
 			return sx("strok", v)
 		}
 	case *types.Slice:
-		return and(sx("sliceok", v), sx("<=", sx("sbase", v), st.allocTop))
+		return and(sx("sliceok", v), sx("<=", sx("sbase", v), top))
 	case *types.Pointer, *types.Map, *types.Chan:
-		return sx("<=", v, st.allocTop)
+		return sx("<=", v, top)
 	case *types.Struct:
 		var cs []Term
 		for i := 0; i < u.NumFields(); i++ {
-			cs = append(cs, x.typeInv(u.Field(i).Type(), x.X.structField(t, i, v), st))
+			cs = append(cs, x.typeInvTop(u.Field(i).Type(), x.X.structField(t, i, v), top))
 		}
 		return and(cs...)
 	}
@@ -277,6 +287,12 @@ func (x *Exec) addrOf(v Val, pointee types.Type) *Addr {
 	}
 	if isStruct(pointee) {
 		return &Addr{Kind: aObj, Ref: v.T, Typ: pointee}
+	}
+	if arr, ok := pointee.Underlying().(*types.Array); ok && !isStruct(arr.Elem()) {
+		// a heap-allocated array is its own backing store in the element heap
+		c, srt := x.elemComp(arr.Elem())
+		x.comp(c, srt)
+		return &Addr{Kind: aArr, Comp: c, Ref: v.T, Typ: pointee}
 	}
 	c, _ := x.boxComp(pointee)
 	return &Addr{Kind: aBox, Comp: c, Ref: v.T, Typ: pointee}
@@ -346,6 +362,8 @@ func (x *Exec) loadAddr(m memView, a *Addr) Term {
 	case aBox:
 		_, srt := x.boxComp(a.Typ)
 		return sx("select", m.heapOf(a.Comp, srt), a.Ref)
+	case aArr:
+		return sx("select", m.heapOf(a.Comp, x.comps[a.Comp]), a.Ref)
 	case aGlobal:
 		return m.heapOf(a.Comp, x.X.sortOf(a.Typ))
 	case aObj:
@@ -418,6 +436,10 @@ func (x *Exec) storeAddr(st *State, a *Addr, v Term) {
 		c, srt := x.boxComp(a.Typ)
 		h := x.heapGet(st, c, srt)
 		st.heap[c] = x.define(x.fresh(c), srt, sx("store", h, a.Ref, v))
+	case aArr:
+		srt := x.comps[a.Comp]
+		h := x.heapGet(st, a.Comp, srt)
+		st.heap[a.Comp] = x.define(x.fresh(a.Comp), srt, sx("store", h, a.Ref, v))
 	case aGlobal:
 		srt := x.X.sortOf(a.Typ)
 		x.comp(a.Comp, srt)
